@@ -33,6 +33,8 @@ def gen(tier, seed):
                     if mode == 'all':
                         for v in c['verts']:
                             v['fixed'] = True
+                    if rnd.random() < 0.6:
+                        c, _ = GC.permute(c, rnd)
                     c['mode'] = mode
                     cases.append(c)
     return [c for c in cases if GC.components_fixed(c)]
